@@ -39,6 +39,26 @@ where
 {
     use generic_array::sequence::GenericSequence;
     let a: Box<GenericArray<u8, N>> = Box::<GenericArray<u8, N>>::generate(|i| byte(pat, i));
+    if spec == "smallstack" {
+        // a large array formatted on a thread with a 256 KiB stack: the formatter's own frame must not grow with N
+        // (a stack overflow ends the process; the runner records the exit, which no action of the specification explains)
+        let p = prec.max(0) as usize;
+        let neg = prec < 0;
+        let h = std::thread::Builder::new()
+            .stack_size(256 * 1024)
+            .spawn(move || match (neg, upper) {
+                (true, false) => format!("{:x}", *a),
+                (true, true) => format!("{:X}", *a),
+                (false, false) => format!("{:.1$x}", *a, p),
+                (false, true) => format!("{:.1$X}", *a, p),
+            })
+            .expect("HARNESS: spawn");
+        let s = h.join().expect("HARNESS: join");
+        let codes: Vec<String> = s.bytes().map(|b| b.to_string()).collect();
+        writeln!(out, "{{\"ev\":\"hex\",\"n\":{},\"prec\":{},\"upper\":{},\"pat\":\"{}\",\"spec\":\"{}\",\"out\":[{}]}}", n, prec, upper, pat, spec, codes.join(",")).unwrap();
+        out.flush().unwrap();
+        return;
+    }
     if let Some(cap) = spec.strip_prefix("sink:") {
         use std::fmt::Write as _;
         let mut b = Bounded { cap: cap.parse().unwrap(), buf: String::new(), failed: false, calls: 0 };
@@ -110,7 +130,8 @@ pub fn run(scn: &str, out: &mut dyn Write) {
             13 => U13, 14 => U14, 15 => U15, 16 => U16, 17 => U17, 31 => U31, 32 => U32, 33 => U33, 63 => U63, 64 => U64, 65 => U65,
             255 => U255, 256 => U256, 257 => Sum<U256, U1>, 511 => U511, 512 => U512, 1000 => U1000,
             1023 => U1023, 1024 => U1024, 1025 => Sum<U1024, U1>, 2047 => U2047, 2048 => U2048, 2049 => Sum<U2048, U1>,
-            3000 => Prod<U1000, U3>, 3072 => Prod<U1024, U3>, 3073 => Sum<Prod<U1024, U3>, U1>, 4096 => U4096, 5000 => Prod<U1000, U5>);
+            3000 => Prod<U1000, U3>, 3072 => Prod<U1024, U3>, 3073 => Sum<Prod<U1024, U3>, U1>, 4096 => U4096, 5000 => Prod<U1000, U5>,
+            131072 => U131072, 1048576 => U1048576);
     }
     writeln!(out, "{{\"ev\":\"case_end\"}}").unwrap();
 }
